@@ -793,96 +793,471 @@ def chainStack (e : Env) (s : Seg) : Seg :=
   substOne "column".toList e.column (substOne "line".toList e.line (substOne "file".toList e.file
     (substOne "callstack".toList e.callstack (chainHead e s))))
 
+/-- the ten passes before `{code}` on one marker, for arbitrary field names -/
+theorem chain10 (a1 a3 a4 a5 a6 a7 a8 a9 a10 : Str) (v1 v3 v4 v5 v6 v7 v8 v9 v10 : Str) (inc : Bool) (n : Str) :
+    (substOne a10 v10 (substOne a9 v9 (substOne a8 v8 (substOne a7 v7 (substOne a6 v6 (substOne a5 v5 (substOne a4 v4
+      (substOne a3 v3 (substInc inc (substOne a1 v1 (.mk n))))))))))).flat =
+    ((if n = a1 then some v1 else if incP n then some (if inc then n.drop 13 else []) else if n = a3 then some v3
+      else if n = a4 then some v4 else if n = a5 then some v5 else if n = a6 then some v6 else if n = a7 then some v7
+      else if n = a8 then some v8 else if n = a9 then some v9 else if n = a10 then some v10 else none).getD (mark n)) := by
+  by_cases h1 : n = a1
+  · subst h1; simp [substOne, substInc, Seg.flat, mark]
+  by_cases h2 : incP n = true
+  · simp [substOne, substInc, h1, h2, Seg.flat, mark]
+  by_cases h3 : n = a3
+  · subst h3; simp [substOne, substInc, h1, h2, Seg.flat, mark]
+  by_cases h4 : n = a4
+  · subst h4; simp [substOne, substInc, h1, h2, h3, Seg.flat, mark]
+  by_cases h5 : n = a5
+  · subst h5; simp [substOne, substInc, h1, h2, h3, h4, Seg.flat, mark]
+  by_cases h6 : n = a6
+  · subst h6; simp [substOne, substInc, h1, h2, h3, h4, h5, Seg.flat, mark]
+  by_cases h7 : n = a7
+  · subst h7; simp [substOne, substInc, h1, h2, h3, h4, h5, h6, Seg.flat, mark]
+  by_cases h8 : n = a8
+  · subst h8; simp [substOne, substInc, h1, h2, h3, h4, h5, h6, h7, Seg.flat, mark]
+  by_cases h9 : n = a9
+  · subst h9; simp [substOne, substInc, h1, h2, h3, h4, h5, h6, h7, h8, Seg.flat, mark]
+  by_cases h10 : n = a10
+  · subst h10; simp [substOne, substInc, h1, h2, h3, h4, h5, h6, h7, h8, h9, Seg.flat, mark]
+  simp [substOne, substInc, h1, h2, h3, h4, h5, h6, h7, h8, h9, h10, Seg.flat, mark]
+
+/-- … followed by the `{code}` pass -/
+theorem chain11 (a1 a3 a4 a5 a6 a7 a8 a9 a10 a11 : Str) (v1 v3 v4 v5 v6 v7 v8 v9 v10 v11 : Str) (inc : Bool) (n : Str) :
+    (substOne a11 v11 (substOne a10 v10 (substOne a9 v9 (substOne a8 v8 (substOne a7 v7 (substOne a6 v6 (substOne a5 v5
+      (substOne a4 v4 (substOne a3 v3 (substInc inc (substOne a1 v1 (.mk n)))))))))))).flat =
+    ((match (if n = a1 then some v1 else if incP n then some (if inc then n.drop 13 else []) else if n = a3 then some v3
+      else if n = a4 then some v4 else if n = a5 then some v5 else if n = a6 then some v6 else if n = a7 then some v7
+      else if n = a8 then some v8 else if n = a9 then some v9 else if n = a10 then some v10 else none) with
+      | some v => some v
+      | none => if n = a11 then some v11 else none).getD (mark n)) := by
+  by_cases h1 : n = a1
+  · subst h1; simp [substOne, substInc, Seg.flat, mark]
+  by_cases h2 : incP n = true
+  · simp [substOne, substInc, h1, h2, Seg.flat, mark]
+  by_cases h3 : n = a3
+  · subst h3; simp [substOne, substInc, h1, h2, Seg.flat, mark]
+  by_cases h4 : n = a4
+  · subst h4; simp [substOne, substInc, h1, h2, h3, Seg.flat, mark]
+  by_cases h5 : n = a5
+  · subst h5; simp [substOne, substInc, h1, h2, h3, h4, Seg.flat, mark]
+  by_cases h6 : n = a6
+  · subst h6; simp [substOne, substInc, h1, h2, h3, h4, h5, Seg.flat, mark]
+  by_cases h7 : n = a7
+  · subst h7; simp [substOne, substInc, h1, h2, h3, h4, h5, h6, Seg.flat, mark]
+  by_cases h8 : n = a8
+  · subst h8; simp [substOne, substInc, h1, h2, h3, h4, h5, h6, h7, Seg.flat, mark]
+  by_cases h9 : n = a9
+  · subst h9; simp [substOne, substInc, h1, h2, h3, h4, h5, h6, h7, h8, Seg.flat, mark]
+  by_cases h10 : n = a10
+  · subst h10; simp [substOne, substInc, h1, h2, h3, h4, h5, h6, h7, h8, h9, Seg.flat, mark]
+  by_cases h11 : n = a11
+  · subst h11; simp [substOne, substInc, h1, h2, h3, h4, h5, h6, h7, h8, h9, h10, Seg.flat, mark]
+  simp [substOne, substInc, h1, h2, h3, h4, h5, h6, h7, h8, h9, h10, h11, Seg.flat, mark]
+
+/-- the six passes before the call-stack fields, then the map-driven `replace` -/
+theorem chain6map (m : List (Str × Str)) (a1 a3 a4 a5 a6 : Str) (v1 v3 v4 v5 v6 : Str) (inc : Bool) (n : Str) :
+    (substMap m (substOne a6 v6 (substOne a5 v5 (substOne a4 v4 (substOne a3 v3 (substInc inc (substOne a1 v1 (.mk n)))))))).flat =
+    ((if n = a1 then some v1 else if incP n then some (if inc then n.drop 13 else []) else if n = a3 then some v3
+      else if n = a4 then some v4 else if n = a5 then some v5 else if n = a6 then some v6 else m.lookup (mark n)).getD (mark n)) := by
+  by_cases h1 : n = a1
+  · subst h1; simp [substOne, substInc, Seg.flat, mark, substMap]
+  by_cases h2 : incP n = true
+  · simp [substOne, substInc, h1, h2, Seg.flat, mark, substMap]
+  by_cases h3 : n = a3
+  · subst h3; simp [substOne, substInc, h1, h2, Seg.flat, mark, substMap]
+  by_cases h4 : n = a4
+  · subst h4; simp [substOne, substInc, h1, h2, h3, Seg.flat, mark, substMap]
+  by_cases h5 : n = a5
+  · subst h5; simp [substOne, substInc, h1, h2, h3, h4, Seg.flat, mark, substMap]
+  by_cases h6 : n = a6
+  · subst h6; simp [substOne, substInc, h1, h2, h3, h4, h5, Seg.flat, mark, substMap]
+  cases hl : m.lookup (mark n) <;> simp only [mark] at hl <;>
+    simp [substOne, substInc, h1, h2, h3, h4, h5, h6, substMap, Seg.flat, mark, hl]
+
+theorem mark_inj {a b : Str} : mark a = mark b ↔ a = b := by
+  constructor
+  · intro h
+    simp only [mark, List.cons.injEq, true_and] at h
+    exact List.append_cancel_right h
+  · intro h; rw [h]
+
+theorem mark_beq (a b : Str) : (mark a == mark b) = decide (a = b) := by
+  by_cases h : a = b
+  · subst h; simp
+  · have : mark a ≠ mark b := fun hh => h (mark_inj.mp hh)
+    simp [h, this]
+
+/-- looking a marker up in a five-entry map -/
+theorem lookup5 (b1 b2 b3 b4 b5 w1 w2 w3 w4 w5 n : Str) :
+    List.lookup (mark n) [(mark b1, w1), (mark b2, w2), (mark b3, w3), (mark b4, w4), (mark b5, w5)] =
+    if n = b1 then some w1 else if n = b2 then some w2 else if n = b3 then some w3 else if n = b4 then some w4
+    else if n = b5 then some w5 else none := by
+  simp only [List.lookup, mark_beq]
+  by_cases h1 : n = b1
+  · subst h1; simp
+  by_cases h2 : n = b2
+  · subst h2; simp [h1]
+  by_cases h3 : n = b3
+  · subst h3; simp [h1, h2]
+  by_cases h4 : n = b4
+  · subst h4; simp [h1, h2, h3]
+  by_cases h5 : n = b5
+  · subst h5; simp [h1, h2, h3, h4]
+  simp [h1, h2, h3, h4, h5]
+
+theorem ifchain_split (a1 a3 a4 a5 a6 a7 a8 a9 a10 a11 : Str) (v1 v3 v4 v5 v6 v7 v8 v9 v10 v11 : Str) (X : Str) (n : Str) :
+    (if n = a1 then some v1 else if incP n then some X else if n = a3 then some v3
+      else if n = a4 then some v4 else if n = a5 then some v5 else if n = a6 then some v6 else
+        (if n = a7 then some v7 else if n = a8 then some v8 else if n = a9 then some v9 else if n = a10 then some v10
+         else if n = a11 then some v11 else none)) =
+    (match (if n = a1 then some v1 else if incP n then some X else if n = a3 then some v3
+      else if n = a4 then some v4 else if n = a5 then some v5 else if n = a6 then some v6 else if n = a7 then some v7
+      else if n = a8 then some v8 else if n = a9 then some v9 else if n = a10 then some v10 else none) with
+      | some v => some v
+      | none => if n = a11 then some v11 else none) := by
+  by_cases h1 : n = a1
+  · subst h1; simp
+  by_cases h2 : incP n = true
+  · simp [h1, h2]
+  by_cases h3 : n = a3
+  · subst h3; simp [h1, h2]
+  by_cases h4 : n = a4
+  · subst h4; simp [h1, h2, h3]
+  by_cases h5 : n = a5
+  · subst h5; simp [h1, h2, h3, h4]
+  by_cases h6 : n = a6
+  · subst h6; simp [h1, h2, h3, h4, h5]
+  by_cases h7 : n = a7
+  · subst h7; simp [h1, h2, h3, h4, h5, h6]
+  by_cases h8 : n = a8
+  · subst h8; simp [h1, h2, h3, h4, h5, h6, h7]
+  by_cases h9 : n = a9
+  · subst h9; simp [h1, h2, h3, h4, h5, h6, h7, h8]
+  by_cases h10 : n = a10
+  · subst h10; simp [h1, h2, h3, h4, h5, h6, h7, h8, h9]
+  simp [h1, h2, h3, h4, h5, h6, h7, h8, h9, h10]
+
 theorem chainStack_flat (e : Env) (s : Seg) : (chainStack e s).flat = substSeg e.valueNoCode s := by
   cases s with
   | lit t => rfl
-  | mk n =>
-    simp only [chainStack, chainHead, substSeg, Env.valueNoCode]
-    by_cases h1 : n = "id".toList
-    · simp [substOne, substInc, h1, Seg.flat]
-    by_cases h2 : incP n = true
-    · simp [substOne, substInc, h1, h2, Seg.flat]
-    by_cases h3 : n = "severity".toList
-    · simp [substOne, substInc, h1, h2, h3, Seg.flat]
-    by_cases h4 : n = "cwe".toList
-    · simp [substOne, substInc, h1, h2, h3, h4, Seg.flat]
-    by_cases h5 : n = "message".toList
-    · simp [substOne, substInc, h1, h2, h3, h4, h5, Seg.flat]
-    by_cases h6 : n = "remark".toList
-    · simp [substOne, substInc, h1, h2, h3, h4, h5, h6, Seg.flat]
-    by_cases h7 : n = "callstack".toList
-    · simp [substOne, substInc, h1, h2, h3, h4, h5, h6, h7, Seg.flat]
-    by_cases h8 : n = "file".toList
-    · simp [substOne, substInc, h1, h2, h3, h4, h5, h6, h7, h8, Seg.flat]
-    by_cases h9 : n = "line".toList
-    · simp [substOne, substInc, h1, h2, h3, h4, h5, h6, h7, h8, h9, Seg.flat]
-    by_cases h10 : n = "column".toList
-    · simp [substOne, substInc, h1, h2, h3, h4, h5, h6, h7, h8, h9, h10, Seg.flat]
-    simp [substOne, substInc, h1, h2, h3, h4, h5, h6, h7, h8, h9, h10, Seg.flat]
+  | mk n => exact chain10 _ _ _ _ _ _ _ _ _ _ _ _ _ _ _ _ _ _ _ n
 
 theorem chainCode_flat (e : Env) (s : Seg) :
     (substOne "code".toList e.code (chainStack e s)).flat = substSeg e.value s := by
   cases s with
   | lit t => rfl
+  | mk n => exact chain11 _ _ _ _ _ _ _ _ _ _ _ _ _ _ _ _ _ _ _ _ _ n
+
+theorem noStackMap_eq : noStackMap = [(mark "callstack".toList, []), (mark "file".toList, "nofile".toList),
+    (mark "line".toList, ['0']), (mark "column".toList, ['0']), (mark "code".toList, [])] := by decide
+
+theorem chainNoStack_flat (e : Env) (s : Seg) (h1 : e.callstack = []) (h2 : e.file = "nofile".toList)
+    (h3 : e.line = ['0']) (h4 : e.column = ['0']) (h5 : e.code = []) :
+    (substMap noStackMap (chainHead e s)).flat = substSeg e.value s := by
+  cases s with
+  | lit t => rfl
   | mk n =>
-    have hpre := chainStack_flat e (.mk n)
-    simp only [substSeg, Env.value] at hpre ⊢
-    cases hv : e.valueNoCode n with
-    | some v =>
-      -- the segment is already a literal
-      have : ∃ t, chainStack e (.mk n) = .lit t := by
-        simp only [chainStack, chainHead, Env.valueNoCode] at hv ⊢
-        by_cases h1 : n = "id".toList
-        · simp [substOne, substInc, h1]
-        by_cases h2 : incP n = true
-        · simp [substOne, substInc, h1, h2]
-        by_cases h3 : n = "severity".toList
-        · simp [substOne, substInc, h1, h2, h3]
-        by_cases h4 : n = "cwe".toList
-        · simp [substOne, substInc, h1, h2, h3, h4]
-        by_cases h5 : n = "message".toList
-        · simp [substOne, substInc, h1, h2, h3, h4, h5]
-        by_cases h6 : n = "remark".toList
-        · simp [substOne, substInc, h1, h2, h3, h4, h5, h6]
-        by_cases h7 : n = "callstack".toList
-        · simp [substOne, substInc, h1, h2, h3, h4, h5, h6, h7]
-        by_cases h8 : n = "file".toList
-        · simp [substOne, substInc, h1, h2, h3, h4, h5, h6, h7, h8]
-        by_cases h9 : n = "line".toList
-        · simp [substOne, substInc, h1, h2, h3, h4, h5, h6, h7, h8, h9]
-        by_cases h10 : n = "column".toList
-        · simp [substOne, substInc, h1, h2, h3, h4, h5, h6, h7, h8, h9, h10]
-        simp [h1, h2, h3, h4, h5, h6, h7, h8, h9, h10] at hv
-      obtain ⟨t, ht⟩ := this
-      rw [ht] at hpre ⊢
-      rw [hv] at hpre
-      simpa [substOne] using hpre
+    show (substMap noStackMap (chainHead e (.mk n))).flat = (e.value n).getD (mark n)
+    unfold chainHead
+    rw [chain6map, noStackMap_eq, lookup5]
+    unfold Env.value Env.valueNoCode
+    rw [h1, h2, h3, h4, h5, ifchain_split]
+    rfl
+
+/-! ### the main theorem for the message template -/
+
+/-- no field value that is substituted *before* another pass holds a '{' -/
+structure ValuesOK (f : Finding) (verbose : Bool) : Prop where
+  id : noOpen (if f.guideline = [] then f.id else f.guideline)
+  cls : noOpen f.classification
+  msg : noOpen (if verbose then f.verboseMsg else f.shortMsg)
+  remark : noOpen f.remark
+  files : ∀ l ∈ f.stack, noOpen l.file
+
+theorem chainHead_lit (e : Env) (t : Str) : chainHead e (.lit t) = .lit t := rfl
+
+theorem find_zero (pat s : Str) : find pat s 0 = findFrom pat s 0 := by simp [find]
+
+/-- the first six passes (id, inconclusive, severity, cwe, message, remark) -/
+theorem head_passes (f : Finding) (verbose : Bool) (code : Str) (segs : List Seg) (hwf : SegsWF segs)
+    (hv : ValuesOK f verbose) :
+    far (far (far (far (inconclusiveLoop f.inconclusive
+          ((far (flatten segs) "{id}".toList (if f.guideline = [] then f.id else f.guideline)).length + 1)
+          (far (flatten segs) "{id}".toList (if f.guideline = [] then f.id else f.guideline))
+          (find mInc (far (flatten segs) "{id}".toList (if f.guideline = [] then f.id else f.guideline)) 0))
+        "{severity}".toList (if f.classification = [] then sevStr f.severity else f.classification))
+        "{cwe}".toList (natDec f.cwe)) "{message}".toList (if verbose then f.verboseMsg else f.shortMsg))
+        "{remark}".toList f.remark
+      = flatten (segs.map (chainHead (envOf f verbose code))) ∧ SegsWF (segs.map (chainHead (envOf f verbose code))) := by
+  generalize he : envOf f verbose code = e
+  have hid : (if f.guideline = [] then f.id else f.guideline) = e.id := by rw [← he]; rfl
+  have hsv : (if f.classification = [] then sevStr f.severity else f.classification) = e.severity := by rw [← he]; rfl
+  have hcw : natDec f.cwe = e.cwe := by rw [← he]; rfl
+  have hms : (if verbose then f.verboseMsg else f.shortMsg) = e.message := by rw [← he]; rfl
+  have hrm : f.remark = e.remark := by rw [← he]; rfl
+  have hinc : f.inconclusive = e.inconclusive := by rw [← he]; rfl
+  have hsev : noOpen e.severity := by
+    rw [← hsv]
+    split
+    · exact sevStr_noOpen _
+    · exact hv.cls
+  rw [hid, hsv, hcw, hms, hrm, hinc]
+  have w1 := substOne_wf "id".toList e.id (hid ▸ hv.id) segs hwf
+  have e1 : far (flatten segs) "{id}".toList e.id = flatten (segs.map (substOne "id".toList e.id)) := by
+    rw [mark_id]; exact far_flatten _ _ nb_id segs hwf
+  have w2 := substInc_wf e.inconclusive _ w1
+  rw [e1, find_zero]
+  have e2 := inconclusiveLoop_flatten e.inconclusive ((flatten (segs.map (substOne "id".toList e.id))).length + 1) _ w1
+    (by have := incCount_le_length (segs.map (substOne "id".toList e.id)); omega)
+  rw [e2]
+  have w3 := substOne_wf "severity".toList e.severity hsev _ w2
+  have w4 := substOne_wf "cwe".toList e.cwe (hcw ▸ (natDec_noBrace f.cwe).noOpen) _ w3
+  have w5 := substOne_wf "message".toList e.message (hms ▸ hv.msg) _ w4
+  have w6 := substOne_wf "remark".toList e.remark (hrm ▸ hv.remark) _ w5
+  rw [mark_severity, far_flatten _ _ nb_severity _ w2, mark_cwe, far_flatten _ _ nb_cwe _ w3,
+    mark_message, far_flatten _ _ nb_message _ w4, mark_remark, far_flatten _ _ nb_remark _ w5]
+  simp only [List.map_map] at w6 ⊢
+  exact ⟨rfl, w6⟩
+
+/-- `mainText` of a well-formed template = simultaneous substitution (`Spec.renderMain`) -/
+theorem mainText_eq_spec (src : Loc → Str) (f : Finding) (verbose : Bool) (segs : List Seg) (hwf : SegsWF segs)
+    (hv : ValuesOK f verbose) : mainText src f verbose (flatten segs) = Spec.renderMain src f verbose segs := by
+  unfold mainText Spec.renderMain
+  obtain ⟨h6, w6⟩ := head_passes f verbose [] segs hwf hv
+  simp only []
+  rw [h6]
+  cases hlast : f.stack.getLast? with
+  | some last =>
+    simp only []
+    have hmem : last ∈ f.stack := List.mem_of_getLast? hlast
+    have hfile : noOpen (toNative last.file) := toNative_noOpen (hv.files last hmem)
+    have hcs : noOpen (callStackToString f.stack) := callStackToString_noOpen _ hv.files
+    generalize he : envOf f verbose [] = e at *
+    have ecs : callStackToString f.stack = e.callstack := by rw [← he]; rfl
+    have efile : toNative last.file = e.file := by
+      rw [← he]; show _ = (match f.stack.getLast? with | some l => toNative l.file | none => _); rw [hlast]
+    have eline : intDec last.line = e.line := by
+      rw [← he]; show _ = (match f.stack.getLast? with | some l => intDec l.line | none => _); rw [hlast]
+    have ecol : natDec last.column = e.column := by
+      rw [← he]; show _ = (match f.stack.getLast? with | some l => natDec l.column | none => _); rw [hlast]
+    have w7 := substOne_wf "callstack".toList e.callstack (ecs ▸ hcs) _ w6
+    have w8 := substOne_wf "file".toList e.file (efile ▸ hfile) _ w7
+    have w9 := substOne_wf "line".toList e.line (eline ▸ (intDec_noBrace last.line).noOpen) _ w8
+    have w10 := substOne_wf "column".toList e.column (ecol ▸ (natDec_noBrace last.column).noOpen) _ w9
+    rw [ecs, efile, eline, ecol]
+    rw [mark_callstack, far_flatten _ _ nb_callstack _ w6, mark_file, far_flatten _ _ nb_file _ w7,
+      mark_line, far_flatten _ _ nb_line _ w8, mark_column, far_flatten _ _ nb_column _ w9,
+      mark_code, far_flatten _ _ nb_code _ w10]
+    simp only [List.map_map]
+    have ha : flatten (List.map (substOne "column".toList e.column ∘ substOne "line".toList e.line ∘
+        substOne "file".toList e.file ∘ substOne "callstack".toList e.callstack ∘ chainHead e) segs) =
+        subst e.valueNoCode segs := by
+      rw [flatten_map]
+      apply flatMap_congr'
+      intro s _
+      exact chainStack_flat e s
+    have hb : codeOf src f (subst e.valueNoCode segs) =
+        readCode (src last) last.column (endlOf (subst e.valueNoCode segs)) := by
+      unfold codeOf; rw [hlast]
+    rw [ha, hb]
+    subst he
+    rw [flatten_map]
+    apply flatMap_congr'
+    intro s _
+    exact chainCode_flat (envOf f verbose (readCode (src last) last.column (endlOf (subst (envOf f verbose []).valueNoCode segs)))) s
+  | none =>
+    simp only []
+    have hst : f.stack = [] := List.getLast?_eq_none_iff.mp hlast
+    have hc : codeOf src f (subst (envOf f verbose []).valueNoCode segs) = [] := by unfold codeOf; rw [hlast]
+    rw [hc, replaceMap_flatten _ _ w6, List.map_map, flatten_map]
+    apply flatMap_congr'
+    intro s _
+    apply chainNoStack_flat (envOf f verbose []) s
+    · show callStackToString f.stack = []; rw [hst]; rfl
+    · show (match f.stack.getLast? with | some l => toNative l.file | none => _) = _; rw [hlast]
+    · show (match f.stack.getLast? with | some l => intDec l.line | none => _) = _; rw [hlast]
+    · show (match f.stack.getLast? with | some l => natDec l.column | none => _) = _; rw [hlast]
+    · rfl
+
+/-! ### the location template -/
+
+theorem lchain4 (a1 a2 a3 a4 v1 v2 v3 v4 n : Str) :
+    (substOne a4 v4 (substOne a3 v3 (substOne a2 v2 (substOne a1 v1 (.mk n))))).flat =
+    ((if n = a1 then some v1 else if n = a2 then some v2 else if n = a3 then some v3 else if n = a4 then some v4
+      else none).getD (mark n)) := by
+  by_cases h1 : n = a1
+  · subst h1; simp [substOne, Seg.flat, mark]
+  by_cases h2 : n = a2
+  · subst h2; simp [substOne, h1, Seg.flat, mark]
+  by_cases h3 : n = a3
+  · subst h3; simp [substOne, h1, h2, Seg.flat, mark]
+  by_cases h4 : n = a4
+  · subst h4; simp [substOne, h1, h2, h3, Seg.flat, mark]
+  simp [substOne, h1, h2, h3, h4, Seg.flat, mark]
+
+theorem lchain5 (a1 a2 a3 a4 a5 v1 v2 v3 v4 v5 n : Str) :
+    (substOne a5 v5 (substOne a4 v4 (substOne a3 v3 (substOne a2 v2 (substOne a1 v1 (.mk n)))))).flat =
+    ((match (if n = a1 then some v1 else if n = a2 then some v2 else if n = a3 then some v3 else if n = a4 then some v4
+      else none) with
+      | some v => some v
+      | none => if n = a5 then some v5 else none).getD (mark n)) := by
+  by_cases h1 : n = a1
+  · subst h1; simp [substOne, Seg.flat, mark]
+  by_cases h2 : n = a2
+  · subst h2; simp [substOne, h1, Seg.flat, mark]
+  by_cases h3 : n = a3
+  · subst h3; simp [substOne, h1, h2, Seg.flat, mark]
+  by_cases h4 : n = a4
+  · subst h4; simp [substOne, h1, h2, h3, Seg.flat, mark]
+  by_cases h5 : n = a5
+  · subst h5; simp [substOne, h1, h2, h3, h4, Seg.flat, mark]
+  simp [substOne, h1, h2, h3, h4, h5, Seg.flat, mark]
+
+def lchain (l : Loc) (shortMsg : Str) (s : Seg) : Seg :=
+  substOne "info".toList (if l.info = [] then shortMsg else l.info) (substOne "column".toList (natDec l.column)
+    (substOne "line".toList (intDec l.line) (substOne "file".toList (toNative l.file) s)))
+
+theorem lchain_flat (l : Loc) (shortMsg : Str) (s : Seg) : (lchain l shortMsg s).flat = substSeg (locValueNoCode l shortMsg) s := by
+  cases s with
+  | lit t => rfl
+  | mk n => exact lchain4 _ _ _ _ _ _ _ _ n
+
+theorem lchainCode_flat (l : Loc) (shortMsg code : Str) (s : Seg) :
+    (substOne "code".toList code (lchain l shortMsg s)).flat = substSeg (locValue l shortMsg code) s := by
+  cases s with
+  | lit t => rfl
+  | mk n => exact lchain5 _ _ _ _ _ _ _ _ _ _ n
+
+/-- one location line of a well-formed location template = simultaneous substitution (`Spec.renderLoc`) -/
+theorem locText_eq_spec (src : Loc → Str) (shortMsg : Str) (segs : List Seg) (l : Loc) (hwf : SegsWF segs)
+    (hfile : noOpen l.file) (hinfo : noOpen (if l.info = [] then shortMsg else l.info)) :
+    locText src shortMsg (flatten segs) l = Spec.renderLoc src shortMsg segs l := by
+  unfold locText Spec.renderLoc
+  simp only []
+  have w1 := substOne_wf "file".toList (toNative l.file) (toNative_noOpen hfile) _ hwf
+  have w2 := substOne_wf "line".toList (intDec l.line) (intDec_noBrace l.line).noOpen _ w1
+  have w3 := substOne_wf "column".toList (natDec l.column) (natDec_noBrace l.column).noOpen _ w2
+  have w4 := substOne_wf "info".toList (if l.info = [] then shortMsg else l.info) hinfo _ w3
+  rw [mark_file, far_flatten _ _ nb_file _ hwf, mark_line, far_flatten _ _ nb_line _ w1,
+    mark_column, far_flatten _ _ nb_column _ w2, mark_info, far_flatten _ _ nb_info _ w3,
+    mark_code, far_flatten _ _ nb_code _ w4]
+  simp only [List.map_map]
+  have ha : flatten (List.map (substOne "info".toList (if l.info = [] then shortMsg else l.info) ∘
+      substOne "column".toList (natDec l.column) ∘ substOne "line".toList (intDec l.line) ∘
+      substOne "file".toList (toNative l.file)) segs) = subst (locValueNoCode l shortMsg) segs := by
+    rw [flatten_map]
+    apply flatMap_congr'
+    intro s _
+    exact lchain_flat l shortMsg s
+  rw [ha, flatten_map]
+  apply flatMap_congr'
+  intro s _
+  exact lchainCode_flat l shortMsg _ s
+
+/-- hypotheses on the values the location template substitutes before `{code}` -/
+structure LocValuesOK (f : Finding) : Prop where
+  files : ∀ l ∈ f.stack, noOpen l.file
+  infos : ∀ l ∈ f.stack, noOpen (if l.info = [] then f.shortMsg else l.info)
+
+/-- `toString` on well-formed templates = the documented simultaneous substitution -/
+theorem toString_eq_spec (src : Loc → Str) (f : Finding) (verbose : Bool) (segsF segsL : List Seg)
+    (hF : SegsWF segsF) (hL : SegsWF segsL) (hv : ValuesOK f verbose)
+    (hl : flatten segsL ≠ [] ∧ 2 ≤ f.stack.length → LocValuesOK f) :
+    toString src f verbose (flatten segsF) (flatten segsL) = Spec.render src f verbose segsF segsL := by
+  unfold toString Spec.render
+  simp only []
+  rw [mainText_eq_spec src f verbose segsF hF hv]
+  split
+  · rename_i hc
+    have hlv := hl hc
+    congr 1
+    apply flatMap_congr'
+    intro l hmem
+    rw [locText_eq_spec src f.shortMsg segsL l hL (hlv.files l hmem) (hlv.infos l hmem)]
+  · simp
+
+/-! ### the template tokenizer -/
+
+theorem flushLit_flat (cur : Str) (acc : List Seg) : flatten (flushLit cur acc).reverse = flatten acc.reverse ++ cur.reverse := by
+  unfold flushLit
+  split
+  · rename_i h; simp at h; simp [h]
+  · simp [flatten_append, flatten_cons, Seg.flat]
+
+theorem flushLit_wf (cur : Str) (acc : List Seg) (hc : noOpen cur) (ha : SegsWF acc) : SegsWF (flushLit cur acc) := by
+  unfold flushLit
+  split
+  · exact ha
+  · intro s hs
+    simp only [List.mem_cons] at hs
+    rcases hs with rfl | hs
+    · intro c hcm; exact hc c (by simpa using hcm)
+    · exact ha s hs
+
+/-- `parseTemplate` only cuts: the segments spell the template, literal text has no '{', names no brace -/
+theorem parseGo_spec : ∀ (t : Str) (st : Option Str) (cur : Str) (acc : List Seg) (segs : List Seg),
+    parseGo t st cur acc = some segs → noOpen cur → (∀ n, st = some n → noBrace n) → SegsWF acc →
+    SegsWF segs ∧ flatten segs = flatten acc.reverse ++ (match st with | none => cur.reverse | some n => '{' :: n.reverse) ++ t := by
+  intro t
+  induction t with
+  | nil =>
+    intro st cur acc segs h hc hn ha
+    cases st with
     | none =>
-      have : chainStack e (.mk n) = .mk n := by
-        simp only [chainStack, chainHead, Env.valueNoCode] at hv ⊢
-        by_cases h1 : n = "id".toList
-        · simp [h1] at hv
-        by_cases h2 : incP n = true
-        · simp [h1, h2] at hv
-        by_cases h3 : n = "severity".toList
-        · simp [h1, h2, h3] at hv
-        by_cases h4 : n = "cwe".toList
-        · simp [h1, h2, h3, h4] at hv
-        by_cases h5 : n = "message".toList
-        · simp [h1, h2, h3, h4, h5] at hv
-        by_cases h6 : n = "remark".toList
-        · simp [h1, h2, h3, h4, h5, h6] at hv
-        by_cases h7 : n = "callstack".toList
-        · simp [h1, h2, h3, h4, h5, h6, h7] at hv
-        by_cases h8 : n = "file".toList
-        · simp [h1, h2, h3, h4, h5, h6, h7, h8] at hv
-        by_cases h9 : n = "line".toList
-        · simp [h1, h2, h3, h4, h5, h6, h7, h8, h9] at hv
-        by_cases h10 : n = "column".toList
-        · simp [h1, h2, h3, h4, h5, h6, h7, h8, h9, h10] at hv
-        simp [substOne, substInc, h1, h2, h3, h4, h5, h6, h7, h8, h9, h10]
-      rw [this]
-      simp only [substOne]
-      split <;> simp [Seg.flat, *]
+      simp only [parseGo, Option.some.injEq] at h
+      subst h
+      refine ⟨?_, by simp [flushLit_flat]⟩
+      intro s hs
+      exact flushLit_wf cur acc hc ha s (by simpa using hs)
+    | some n => simp [parseGo] at h
+  | cons c r ih =>
+    intro st cur acc segs h hc hn ha
+    cases st with
+    | none =>
+      simp only [parseGo] at h
+      split at h
+      · rename_i hcb
+        have := ih (some []) [] (flushLit cur acc) segs h (fun x hx => by simp at hx)
+          (fun n hn' => by simp at hn'; subst hn'; intro x hx; simp at hx) (flushLit_wf cur acc hc ha)
+        refine ⟨this.1, ?_⟩
+        rw [this.2, flushLit_flat, hcb]; simp
+      · rename_i hcb
+        have := ih none (c :: cur) acc segs h (noOpen_cons hcb hc) (fun n hn' => by simp at hn') ha
+        refine ⟨this.1, ?_⟩
+        rw [this.2]; simp
+    | some n =>
+      have hnb := hn n rfl
+      simp only [parseGo] at h
+      split at h
+      · simp at h
+      · rename_i hc1
+        split at h
+        · rename_i hc2
+          have hwf : SegsWF (Seg.mk n.reverse :: acc) := by
+            intro s hs
+            simp only [List.mem_cons] at hs
+            rcases hs with rfl | hs
+            · intro x hx; exact hnb x (by simpa using hx)
+            · exact ha s hs
+          have := ih none [] (Seg.mk n.reverse :: acc) segs h (fun x hx => by simp at hx) (fun n hn' => by simp at hn') hwf
+          refine ⟨this.1, ?_⟩
+          rw [this.2, hc2]; simp [flatten_append, flatten_cons, Seg.flat]
+        · rename_i hc2
+          have hnb' : noBrace (c :: n) := by
+            intro x hx
+            simp only [List.mem_cons] at hx
+            rcases hx with rfl | hx
+            · exact ⟨hc1, hc2⟩
+            · exact hnb x hx
+          have := ih (some (c :: n)) cur acc segs h hc (fun m hm => by simp at hm; subst hm; exact hnb') ha
+          refine ⟨this.1, ?_⟩
+          rw [this.2]; simp
+
+theorem parseTemplate_spec (t : Str) (segs : List Seg) (h : parseTemplate t = some segs) :
+    SegsWF segs ∧ flatten segs = t := by
+  have := parseGo_spec t none [] [] segs h (fun x hx => by simp at hx) (fun n hn => by simp at hn)
+    (fun s hs => by simp at hs)
+  simpa using this
 
 end Cppcheck.Template
